@@ -62,6 +62,14 @@ def main(argv=None):
         ck.fail("proxy_headers.proxy_headers_middleware/bounded:refusal_check", key,
                 "bounded stand-in: %s header %r (%s) answered %s instead of 400" % (f["kind"], f["value"], f["class"], f["status"]),
                 replay={"case": f, "label": "bounded"}, reproduced=True)
+    # a host supplied by the trusted hop, with or without a port, incl. bracketed IPv6 (bounded: a fixed table on the real middleware)
+    reph = ck.native("host_port_check", {}, timeout=600)
+    ck.bounded.append({"label": "bounded", "what": "SERVER_NAME / SERVER_PORT / HTTP_HOST for hosts with and without a port, bracketed IPv6 included, from X-Forwarded-Host and Forwarded",
+                       "bound": "fixed table of %s values in replay/C16_replay.py" % reph.get("total"), "evaluations": reph.get("total", 0), "failures": reph.get("failures", reph)})
+    for f in (reph.get("failures") or [])[:2]:
+        ck.fail("proxy_headers.proxy_headers_middleware/bounded:host_port_check", "value:" + f["value"],
+                "bounded stand-in: host %r from %s gives %s, expected %s" % (f["value"], f["kind"], f.get("got", f.get("exception")), f.get("expected")),
+                replay={"case": f, "label": "bounded"}, reproduced=True)
     ck.trusted.extend(["builtin string model (split/strip/partition/rsplit/lower/join), regex gates of undquote as predicates",
                        "trusted_proxy_headers is any subset of the six known kinds (Adjustments validates the names); trusted_proxy_count >= 1",
                        "cut points at the top-level blocks of parse_proxy_headers; the value-flow invariants carried across them are proved at each cut",
